@@ -221,8 +221,9 @@ double cmb_datasummary_skewness(const struct cmb_datasummary *dsp)
     cmb_assert_release(dsp->cookie == CMI_INITIALIZED);
 
     double r = 0.0;
-    if (dsp->count > 2u) {
-        /* Estimate population skewness */
+    if ((dsp->count > 2u) && (dsp->m2 > 0.0)) {
+        /* Estimate population skewness (not defined for samples that are all
+         * equal: 0/0, an invalid operation that traps inside a process) */
         const double dn = (double)dsp->count;
         const double g = sqrt(dn) * dsp->m3 / pow(dsp->m2, 1.5);
 
@@ -240,8 +241,9 @@ double cmb_datasummary_kurtosis(const struct cmb_datasummary *dsp)
     cmb_assert_release(dsp->cookie == CMI_INITIALIZED);
 
     double r = 0.0;
-    if (dsp->count > 3u) {
-        /* Estimate population excess kurtosis */
+    if ((dsp->count > 3u) && (dsp->m2 > 0.0)) {
+        /* Estimate population excess kurtosis (not defined for samples that
+         * are all equal, see above) */
         const double dn = (double)dsp->count;
         const double g = dn * dsp->m4 / (dsp->m2 * dsp->m2) - 3.0;
 
